@@ -13,7 +13,7 @@
    successful or failed.  [snd (drun H t0 s h)] is the state after the history. *)
 From Coq Require Import List ZArith NArith Bool Strings.Byte Strings.String.
 Require Import Regen.Base.Bytes Regen.Base.Calendar Regen.Data.BytesExt Regen.Data.Hasher Regen.Data.Iri
-  Regen.Data.AList Regen.Data.DataMsgs Regen.Data.DataStepProps Regen.Data.DataInv Regen.Data.DataFuelProps
+  Regen.Data.AList Regen.Data.DataMsgs Regen.Data.DataStepProps Regen.Data.DataInv Regen.Data.DataAuthProps Regen.Data.DataFuelProps
   Regen.Generated.DataConsts.
 Import ListNotations.
 Local Open Scope N_scope.
@@ -112,6 +112,30 @@ Theorem C16_manager_only : forall H t s sg rid chs s' r url m,
   get_resolver rid s = Some (url, Some m) -> sg = m.
 Proof. exact DataInv.C16_manager_only. Qed.
 Print Assumptions C16_manager_only.
+
+(* state-based form: whatever the message, a registration row that appears was written by a
+   MsgRegisterResolver of the resolver's manager (or the resolver is public) *)
+Theorem C16_registration_authorized : forall H t s m id rid,
+  has_data_resolver id rid s = false -> has_data_resolver id rid (fst (deliver H t s m)) = true ->
+  exists sg chs url mgr, m = DRegisterResolver sg rid chs /\ get_resolver rid s = Some (url, mgr) /\
+                         (forall a, mgr = Some a -> a = sg).
+Proof. exact DataAuthProps.C16_registration_authorized. Qed.
+Print Assumptions C16_registration_authorized.
+
+(* an attestation row (id, a) is written only by a MsgAttest signed by a *)
+Theorem C16_attestation_authorized : forall H t s m id a t',
+  get_attestor id a s = None -> get_attestor id a (fst (deliver H t s m)) = Some t' ->
+  exists chs, m = DAttest a chs.
+Proof. exact DataAuthProps.C16_attestation_authorized. Qed.
+Print Assumptions C16_attestation_authorized.
+
+(* a resolver row is written only by MsgDefineResolver; its manager is the definer or nobody *)
+Theorem C16_resolver_defined : forall H t s m rid url mgr,
+  get_resolver rid s = None -> get_resolver rid (fst (deliver H t s m)) = Some (url, mgr) ->
+  exists d uok pub, m = DDefineResolver d url uok pub /\ mgr = (if pub then None else Some d) /\
+                    rid = resolver_seq s + 1.
+Proof. exact DataAuthProps.C16_resolver_defined. Qed.
+Print Assumptions C16_resolver_defined.
 
 Theorem C16_failed_tx_unchanged : forall H t s m s' e, deliver H t s m = (s', DErr e) -> s' = s.
 Proof. exact DataInv.C16_failed_tx_unchanged. Qed.
